@@ -197,6 +197,8 @@ type Config struct {
 	WriterPref  bool // model RWMutex writer preference (Lock = announce + acquire)
 	Ticks       int  // ticks each virtual ticker may deliver
 	LivelockMax int
+	// PoolMiss: a sync.Pool Get may return a new object although the pool holds one (explored as a data choice).
+	PoolMiss bool
 	// PruneAt is consulted at every choice point past the prefix; returning
 	// true abandons the execution (an equivalent state was already expanded).
 	PruneAt func(idx int, p PointInfo) bool
@@ -257,6 +259,9 @@ func CurID() int {
 
 // Dead reports whether the current execution is being torn down.
 func Dead() bool { return mode == Controlled && sc.dead }
+
+// PoolMayMiss reports whether pool misses are part of the exploration.
+func PoolMayMiss() bool { return mode == Controlled && sc.cfg.PoolMiss }
 
 // Ticks returns the configured tick budget per virtual ticker.
 func Ticks() int { return sc.cfg.Ticks }
